@@ -25,7 +25,7 @@ def build_cases(tier, seed):
         if i % 6 == 5:
             prof["network"] = "grid"
         ctrl = BUILTIN if i % 2 == 0 else hostile_stack(p=0.2, builtin=True, kinds=["Idle", "DispatchStation", "ChargeStation", "ChargeBase", "ReserveBase", "DispatchBase", "DispatchTrip", "Reposition"])
-        cases.append(trace_case("C05", i, s, prof, ctrl, steps, ["C05"]))
+        cases.append(trace_case("C05", i, s, prof, ctrl, steps, ["C05"], opts=({"cosim_ops": {"every": 9, "kinds": ["scale_rate", "append_plugs"]}} if i % 4 == 3 else {})))
     if tier == "thorough":
         for w in ("denver_downtown/denver_demo.yaml", "denver_downtown/denver_demo_constrained_charging.yaml", "denver_downtown/denver_demo_fleets.yaml"):
             cases.append(shipped_case("C05", w, 700, ["C05"], tag="b"))
